@@ -43,32 +43,48 @@ def tags_for(reqs):
 
 
 def join_parts(parts):
-    """parts = [(tag | None, answer text)]"""
-    return ANS.join(("-" if t is None else str(t)) + ":" + x for t, x in parts)
+    """parts = [(tag | None, answer text)] or [(tag | None, label, answer text)]; a label (no ':' or '/') says what the
+    part is when the number of parts is only known at run time (the history pairs of C06 / C07)"""
+    out = []
+    for part in parts:
+        t, label, x = part if len(part) == 3 else (part[0], "", part[1])
+        out.append(("-" if t is None else str(t)) + ("/" + label if label else "") + ":" + x)
+    return ANS.join(out)
 
 
-def split_parts(ans):
+def split_labelled(ans):
+    """-> [(tag | None, label, text)] or None when `ans` is not a pair answer (an error text of the runner)"""
     out = []
     for part in ans.split(ANS):
-        tag, sep, text = part.partition(":")
+        head, sep, text = part.partition(":")
+        tag, _, label = head.partition("/")
         if not sep or not (tag == "-" or tag.isdigit()):
-            return None            # not a pair answer (an error text of the runner)
-        out.append((None if tag == "-" else int(tag), text))
+            return None
+        out.append((None if tag == "-" else int(tag), label, text))
     return out
 
 
+def split_parts(ans):
+    parts = split_labelled(ans)
+    return None if parts is None else [(t, x) for t, _, x in parts]
+
+
 def compare(impl_ans, model_ans, sub_compare=None):
-    """every tagged observation equals the model's answer to its sub-request"""
-    parts = split_parts(impl_ans)
+    """every tagged observation equals the model's answer to its sub-request; `sub_compare(text, model text[, label])`"""
+    parts = split_labelled(impl_ans)
     if parts is None:
         return False
     m = model_ans.split(ANS)
-    for tag, text in parts:
+    for tag, label, text in parts:
         if tag is None:
             continue
         if tag >= len(m):
             return False
-        if not (sub_compare(text, m[tag]) if sub_compare else text == m[tag]):
+        if sub_compare is None:
+            same = text == m[tag]
+        else:
+            same = sub_compare(text, m[tag], label) if label else sub_compare(text, m[tag])
+        if not same:
             return False
     return True
 
@@ -244,3 +260,155 @@ def buckets(case, prefix="pair"):
     for m in sorted(set(case.get("mutations") or ["none"])):
         out.append(f"{prefix}:mutation:" + m)
     return out
+
+
+# ------------------------------------------------------------------ edit histories on two live instances (C06, C07)
+# An edit history on A with dumps / views / recursive searches of B in between (B must not change, A must follow its own
+# model), then an edit history on B with the same watch on A.  The histories are run by the property's OWN history runner
+# (editlib.run_history / edit7.run_history), unchanged: the instance it is to work on is handed to it in place of a fresh
+# parse, and its operation list calls back before every operation.
+import contextlib  # noqa: E402
+
+
+class HookedOps(list):
+    """an operation list whose FIRST iteration (the runner's main loop) calls hook(k) before operation k and hook(n)
+    after the last one; every later iteration is that of a plain list"""
+
+    def __init__(self, ops, hook):
+        super().__init__(ops)
+        self._hook, self._used = hook, False
+
+    def __iter__(self):
+        if self._used:
+            return list.__iter__(self)
+        self._used = True
+        return self._walk()
+
+    def _walk(self):
+        k = -1
+        for k, op in enumerate(list.__iter__(self)):
+            self._hook(k)
+            yield op
+        self._hook(k + 1)
+
+
+@contextlib.contextmanager
+def preparsed(T, p):
+    """inside: treelib's parse functions hand out the instance `p` instead of building a new one"""
+    old = (T.parse_impl, T.parse_impl_opts)
+    T.parse_impl = T.parse_impl_opts = lambda case: p
+    try:
+        yield
+    finally:
+        T.parse_impl, T.parse_impl_opts = old
+
+
+# what the watch asks besides the dumps: two recursive searches (they walk every sub-tree, as the searches of C04 do)
+WATCH_QUERIES = [{"api": "c2", "pats": [r"\S", r"\S"], "flags": "c"}, {"api": "p2", "pats": [r"\S", r"^\s+\S"], "flags": "c"}]
+
+
+def watch(T, p, cfg):
+    """[(letter, request line for the model | None, answer)] for one look at instance `p`, which must be in a committed
+    state: `a` texts, line numbers, parents, child lists; `v` the seven family views of every line; `s` the recursive
+    searches (answer format of C04).  The requests are ordinary `tree` / `search` requests about the texts the
+    instance holds now, under its options."""
+    from props import c04 as S
+    texts = list(p.get_text())
+    out = []
+    for letter, op, dumper in (("a", "all", T.dump_all), ("v", "views", T.dump_views)):
+        req = T.mk_case(op, cfg["syntax"], False, cfg["ignore_blank"], cfg["delims"], texts)["req"]
+        out.append((letter, req, dumper(p)))
+    for q in WATCH_QUERIES:
+        sub = S.mk(dict(cfg, lines=texts), q)
+        out.append(("s", sub["req"], S.observe(p, sub)))
+    return out
+
+
+def run_history_pair(T, cfgs, hist_cases, runner, parse):
+    """cfgs[i]: options + lines of instance i; hist_cases[i]: the history case (for `runner`) of instance i.
+    -> (answer, request).  Parts, in this order: `hA` A's history, `hB` B's history, then the watch parts
+    `<letter><instance><phase>`: phase 0 = while A is edited (B is watched), phase 1 = while B is edited (A is watched)."""
+    parses = [parse(hist_cases[0]), parse(hist_cases[1])]          # BOTH first
+    watched = []                                                   # (label, req, text)
+
+    def hook_for(phase):
+        other = 1 - phase
+        def hook(k):
+            for letter, req, text in watch(T, parses[other], cfgs[other]):
+                watched.append(("%s%s%d" % (letter, "AB"[other], phase), req, text))
+        return hook
+
+    hist = []
+    for phase in (0, 1):
+        case = dict(hist_cases[phase])
+        case["ops"] = HookedOps(case["ops"], hook_for(phase))
+        with preparsed(T, parses[phase]):
+            hist.append(runner(case))
+        assert case["ops"]._used, "the history runner did not walk its operation list"
+    reqs, index = [], {}
+
+    def tag(req):
+        if req is None:
+            return None
+        if req not in index:
+            index[req] = len(reqs)
+            reqs.append(req)
+        return index[req]
+
+    parts = [(tag(hist[0][1]), "hA", hist[0][0]), (tag(hist[1][1]), "hB", hist[1][0])]
+    parts += [(tag(req), label, text) for label, req, text in watched]
+    return join_parts(parts), wrap_req(reqs)
+
+
+def history_compare(text, model_text, label=""):
+    if label[:1] == "s":
+        return text.rsplit("&", 1)[0] == model_text      # C04's rule: the texts field is for the oracle only
+    return text == model_text
+
+
+def history_oracle(case, ans, sub_oracle):
+    """each history judged by the property's oracle on its own case; the watched instance shows the same dump, views
+    and search answers at every look, its dump is the one its own history starts / ends with, and the searches are a
+    brute-force scan of that dump (C04's oracle)"""
+    from props import c04 as S
+    parts = split_labelled(ans)
+    if parts is None:
+        return ["pair runner: " + ans[:300]]
+    by = {}
+    for _, label, text in parts:
+        by.setdefault(label, []).append(text)
+    fails = []
+    for i, label in enumerate(("hA", "hB")):
+        if len(by.get(label, [])) != 1:
+            return [f"pair runner: no answer of history {label}"]
+        for f in sub_oracle(case["hist"][i], by[label][0]):
+            fails.append(prefixed(i, i, f))
+    if fails:
+        return fails[:3]
+    steps = [[part.split("~", 2) for part in by[l][0].split("#")] for l in ("hA", "hB")]
+    for phase, inst in ((0, 1), (1, 0)):
+        who, other = "AB"[inst], "AB"[1 - inst]
+        own = steps[inst][0] if phase == 0 else steps[inst][-1]
+        for letter, what in (("a", "texts / line numbers / parents / child lists"), ("v", "family views"), ("s", "recursive search answers")):
+            seen = by.get("%s%s%d" % (letter, who, phase), [])
+            per = len(WATCH_QUERIES) if letter == "s" else 1
+            for j in range(per, len(seen)):
+                if seen[j] != seen[j % per]:
+                    fails.append(prefixed(inst, inst, f"the {what} of instance {who} changed while only instance {other} was edited: "
+                                                      f"look {j // per} shows {seen[j][:160]!r}, look 0 showed {seen[j % per][:160]!r}"))
+                    break
+            if letter == "a" and seen and own[1] != "-" and seen[0] != own[2]:
+                fails.append(prefixed(inst, inst, f"instance {who} as seen while {other} is edited ({seen[0][:160]!r}) is not the state its own "
+                                                  f"history {'starts' if phase == 0 else 'ends'} with ({own[2][:160]!r})"))
+            if letter == "s":
+                for j, text in enumerate(seen[:per]):
+                    for f in S._single["oracle"](dict(WATCH_QUERIES[j], req=None), text):
+                        fails.append(prefixed(inst, inst, f"watch of instance {who} while {other} is edited: {f}"))
+    return fails[:3]
+
+
+def history_known_id(case, failure, sub_known_id):
+    k, rest = unprefix(failure)
+    if k is None or k > 1:
+        return None
+    return sub_known_id(case["hist"][k], rest)
